@@ -29,9 +29,25 @@ Cases == {[fam |-> "hostile", proto |-> p, limit |-> l, class |-> c, lenval |-> 
 \* ways; the caller must complete, the session must stay functional or end cleanly
 ReplyBodies == {[fam |-> "hostile", proto |-> "raw", limit |-> 65536, class |-> "replybody", lenval |-> bc, variant |-> v, codec |-> cd, expect |-> "robust"] :
                   cd \in {"j", "x", "f", "s", "p"}, bc \in {"overflow", "wrongtype", "truncated", "random", "empty", "huge"}, v \in 1..1}
+\* state of the attacked session when the hostile bytes (or the plain end of the input) arrive: "idle" (all cases above);
+\* "pending": one CALL of the attacked side is waiting for a reply that never comes; "closing": such a CALL is pending AND a
+\* graceful Close() of the session is in progress (parked waiting for that call).  Once the input is exhausted the call must
+\* have completed and Close() must have returned (no caller stays blocked), whatever stopped the reader.
+\* Representative input classes: a few truncations of a valid frame (inside the size field, inside the header, one byte
+\* short), random bytes, nothing at all (plain EOF), a bad length field, a well-formed frame of an unsupported type.
+SessStates == {"idle", "pending", "closing"}
+StateClasses == {"truncsome", "random", "eof", "lenfield", "badtype"}
+StateOK(p, cl, lv, st) ==
+  /\ (cl = "lenfield") <=> (lv # "-")
+  /\ st = "idle" => cl \in {"eof", "badtype"}                        \* (the other classes are covered idle above)
+  /\ cl = "badtype" => p # "http"                                     \* (the http mapping has no such message type)
+  /\ p = "thriftbin" /\ st # "idle" => cl \in {"truncsome", "eof"}    \* (its buffering of hostile sizes is a recorded finding)
+StateCases == {[fam |-> "hostile", proto |-> p, limit |-> 65536, class |-> cl, lenval |-> lv, variant |-> 1, sess |-> st, expect |-> "robust"] :
+                 p \in Protos, cl \in StateClasses, lv \in {"-", "0", "limit+1", "2^32-1"}, st \in SessStates}
+StateSel == {x \in StateCases : StateOK(x.proto, x.class, x.lenval, x.sess)}
 VARIABLES c, done
 vars == <<c, done>>
-Init == c \in Cases \cup ReplyBodies /\ done = FALSE
+Init == c \in Cases \cup ReplyBodies \cup StateSel /\ done = FALSE
 Run == ~done /\ done' = TRUE /\ UNCHANGED c
 Spec == Init /\ [][Run]_vars
 OracleSane == c.expect = "robust"
